@@ -355,6 +355,7 @@ CHECKS['C11'] = dict(
         dict(h='h_c11.c', mode='create', flavour='prod', n={'quick': 3200, 'thorough': 60000}, wraps=C11_WRAPS),
         dict(h='h_c11.c', mode='honour', flavour='asan', n={'quick': 1600, 'thorough': 40000}, wraps=C11_WRAPS),
         dict(h='h_c11.c', mode='honour', flavour='prod', n={'quick': 3200, 'thorough': 80000}, wraps=C11_WRAPS),
+        dict(h='h_c11.c', mode='mshonour', flavour='asan', n={'quick': 1600, 'thorough': 40000}, wraps=C11_WRAPS),
         dict(h='h_c11.c', mode='ctl', flavour='asan-fixed', n={'quick': 320, 'thorough': 8000}, wraps=C11_WRAPS),
     ],
     min_nontrivial={'quick': 1000, 'thorough': 2000},
